@@ -9,11 +9,10 @@ cp /repo/smpl_extract/filters/*.so $WT/smpl_extract/filters/
 git -C $WT apply /verif/seeded/$SID/patch.diff || { echo "patch does not apply"; git -C /repo worktree remove --force $WT; exit 2; }
 for P in "$@"; do
   echo "=== $SID vs $P ($TIER)"
-  VF_REPO=$WT ./check $P --tier $TIER ${ONLY:+--only $ONLY} > /tmp/try_${SID}_$P.log 2>&1; RC=$?
+  VF_EVIDENCE_DIR=/tmp/vf_seed_evidence VF_REPO=$WT ./check $P --tier $TIER ${ONLY:+--only $ONLY} > /tmp/try_${SID}_$P.log 2>&1; RC=$?
   grep -E "^VIOLATION" /tmp/try_${SID}_$P.log | cut -c1-300 | head -3
   grep -E "^(KNOWN|HARNESS)" /tmp/try_${SID}_$P.log | cut -c1-300 | head -3
   grep -E "^$P " /tmp/try_${SID}_$P.log | cut -c1-200
   echo "exit=$RC"
 done
 git -C /repo worktree remove --force $WT
-git -C /verif checkout -- evidence 2>/dev/null
